@@ -111,9 +111,17 @@ def emit(pkg, model_dir, fmt, file_stems=None):
     if fmt == 'v1':
         os.mkdir(os.path.join(model_dir, 'seds'))
         for m, name in enumerate(names):
-            fl = [[pkg['flux'][m][a][i] for i in idx] for a in range(nap)]
-            er = [[pkg['err'][m][a][i] for i in idx] for a in range(nap)]
-            pkgio.write_sed_file(os.path.join(model_dir, 'seds', name + '_sed.fits'), name, swav, pkgio.wav_to_nu(swav),
+            mwav, midx = swav, idx
+            if pkg.get('wav_by_model') and pkg['wav_by_model'][m] is not None:
+                # per-file packages may hold SEDs on different wavelength grids (the convolver re-bins the filters)
+                w = list(pkg['wav_by_model'][m])
+                midx = list(range(len(w)))
+                if pkg['storage'] == 'desc':
+                    midx = midx[::-1]
+                mwav = [w[i] for i in midx]
+            fl = [[pkg['flux'][m][a][i] for i in midx] for a in range(nap)]
+            er = [[pkg['err'][m][a][i] for i in midx] for a in range(nap)]
+            pkgio.write_sed_file(os.path.join(model_dir, 'seds', name + '_sed.fits'), name, mwav, pkgio.wav_to_nu(mwav),
                                  pkg['apertures'], fl, er)
         pkgio.write_parameters(model_dir, names, pkg['params'], order=pkg['perm'])
     else:
@@ -127,14 +135,21 @@ def emit(pkg, model_dir, fmt, file_stems=None):
 
 def reference_convolved(pkg, filt, filter_integral_norm=True):
     """-> flux[m][a], err[m][a] (floats) for one filter, by the exact rebinning on the package's frequency grid."""
-    wav = pkg['wav']
-    nu = [om.C_UM_HZ / w for w in wav]                  # descending frequency; order does not matter for R_i
-    R, total = om.rebin_reference(filt['nu'], filt['response'], nu)
-    if filt.get('normalize'):
-        R = [r / total for r in R]
     nap = 1 if pkg['apertures'] is None else len(pkg['apertures'])
     flux, err = [], []
+    cache = {}
     for m in range(len(pkg['names'])):
+        wav = pkg['wav']
+        if pkg.get('wav_by_model') and pkg['wav_by_model'][m] is not None:
+            wav = pkg['wav_by_model'][m]
+        key = tuple(wav)
+        if key not in cache:
+            nu = [om.C_UM_HZ / w for w in wav]          # descending frequency; order does not matter for R_i
+            R, total = om.rebin_reference(filt['nu'], filt['response'], nu)
+            if filt.get('normalize'):
+                R = [r / total for r in R]
+            cache[key] = R
+        R = cache[key]
         fr, er = [], []
         for a in range(nap):
             fr.append(float(sum(Fr(pkg['flux'][m][a][i]) * R[i] for i in range(len(wav)))))
